@@ -133,7 +133,7 @@ MANIFEST_TEXT = {
                "deliberately defective rules, the per-connection rule limit), disconnects, ownership changes and broadcasts built from the same vocabulary (string / object-path / other "
                "arguments, missing arguments, prefixes and extensions of rule values), under chunking and short-I/O faults; an independent parser and matcher written from the "
                "specification predict every AddMatch/RemoveMatch reply and, for each broadcast, the exact set of receiving connections (one copy each); ASan/UBSan watch the "
-               "matcher's memory accesses.",
+               "matcher's memory accesses. Broadcasts also use the interfaces every connection implements (org.freedesktop.DBus.Peer, Properties): ordinary signals that the bus's own library must not answer or swallow.",
                "DESIGN.md section 4 C07, appendix F", "deterministic simulation, seeded history and fault search, model-based oracle + sanitizers"),
     "C10": _mt("Seeded search over byte streams of 1-4 hostile clients (garbage before auth, stalled and abusive handshakes, over-long lines, single-site mutations of valid messages, "
                "limit-value length words, truncation, floods, half-sent messages, abrupt closes, many unauthenticated connections, clock jumps past auth_timeout) interleaved with a "
@@ -145,7 +145,7 @@ MANIFEST_TEXT = {
                "size limit, with a random subset of limits configured to 1..5; white-box invariant after every bus step (registered, per-user, incomplete connections, names and "
                "rules per connection within limits) and protocol oracle (the overflowing request earns LimitsExceeded and changes nothing, requests below the limit are unaffected, "
                "freed capacity is reusable, an oversize message disconnects only its sender). In about 30% of the plans the configuration is reloaded once (ReloadConfig with a second "
-               "file: limits raised, lowered, removed or newly set): refusals must follow the limits in force, what is already held stays (the counting invariant of a lowered limit is switched off). A quarter of the calls of plans with max_message_size are padded to exactly the limit + d (d in -3..9) for every alignment of the header's end.",
+               "file: limits raised, lowered, removed or newly set): refusals must follow the limits in force, what is already held stays (the counting invariant of a lowered limit is switched off). A quarter of the calls of plans with max_message_size are padded to exactly the limit + d (d in -3..9) for every alignment of the header's end. 15% of the plans run with a small max_outgoing_bytes and stalling recipients (a call refused for a full queue must occupy no reply slot); a third configure reply_timeout.",
                "DESIGN.md section 4 C13", "deterministic simulation, seeded history search, invariants checked at every step + model-based oracle"),
     "C06": _mt("Seeded search over configurations x histories: random allow/deny rule lists over every documented attribute (type, interface, member, path, error, destination, "
                "destination prefix, sender, broadcast, requested reply, eavesdrop, fd count, own / own_prefix, user / group) in default, user, group, at_console and mandatory contexts, "
@@ -192,7 +192,7 @@ MANIFEST_TEXT = {
                "loader. The independent codec decides which prefix of the stream is valid: exactly those messages must be produced, byte-identical when re-marshalled, and every header "
                "field and body value read through the public getters and iterators (incl. fixed-array access) must equal the independent decoding; an invalid message must get the "
                "connection declared corrupt, nothing after it is produced; dbus_message_demarshal / _bytes_needed must agree on every single message; ASan/UBSan and a termination "
-               "watchdog cover memory safety and non-termination. This is generated-input differential checking carried out through the simulated transport (DESIGN.md says so).",
+               "watchdog cover memory safety and non-termination. This is generated-input differential checking carried out through the simulated transport (DESIGN.md says so). A directed scenario (about 1 plan in 6000) hands dbus_message_demarshal an 'aay' message built by hand whose outer array is 2^26 + d bytes long: the array length limit at sizes the streams do not reach.",
                "DESIGN.md section 4 C01, appendix G", "deterministic simulation of the transport with input generation and fault injection; independent-codec oracle + sanitizers",
                note="Trusted base: the independent wire codec (sim/codec, written from the specification and differential-tested), the simulated kernel, the harness's application glue. "
                     "Real code: all of dbus/*.c under ASan+UBSan. Two places where libdbus is laxer than the specification are listed as known findings (unique names without a period; "
